@@ -65,23 +65,43 @@ theorem gen_computeSliceParams_eq (length : Int) (a b c : Option Int) (hd : GenS
         simp [GenSlice.computeSliceParams, GenSlice.expected, GenSlice.param, Slice.computeSliceParams, Slice.stepOf,
           gen_capSlice_eq, Except.toOption, h0, hn, hl0, hl1, ha, hb, hv, hw]
 
-/-- util.go's `slice` with the TRANSLATED parameter computation in front of the hand-modelled
-    loops (`computed[0], computed[1], computed[2]` of a list that is not three long is Go's
-    index-out-of-range panic). -/
-def GenSlice.slice {α} (xs : List α) (a b c : Option Int) : Res (List α) :=
-  if (xs.length : Int) > 9223372036854775807 then .err (.other "unreachable: len(slice) exceeds MaxInt64") else
-  match GenSlice.computeSliceParams xs.length [GenSlice.param a, GenSlice.param b, GenSlice.param c] with
-  | .error msg => .err (.other msg)
-  | .ok [start, stop, step] =>
-    if step > 0 then loopUp xs stop step (xs.length + 1) start
-    else loopDown xs stop step (xs.length + 1) start
-  | .ok _ => .panic "util.go: computed[k] index out of range"
+/-- The translated first loop (`step > 0`) is the model's `loopUp`. -/
+theorem gen_loop1_eq {α} (xs : List α) (start stop step : Int) :
+    ∀ (fuel : Nat) (i : Int), GenSlice.sliceLoop1 xs start stop step fuel i = Slice.loopUp xs stop step fuel i := by
+  first
+  | (intro fuel i; rfl)       -- the hand-written loops (the translator did not recognise the source's)
+  | (intro fuel
+     induction fuel with
+     | zero => intro i; simp [GenSlice.sliceLoop1, Slice.loopUp]
+     | succ n ih =>
+       intro i
+       simp only [GenSlice.sliceLoop1, Slice.loopUp, ih, decide_eq_true_eq]
+       first
+         | rfl
+         | (repeat' split) <;> simp_all <;> omega)
 
-/-- With the translated arithmetic the slice is Python's slice. -/
+/-- The translated second loop (`step < 0`) is the model's `loopDown`. -/
+theorem gen_loop2_eq {α} (xs : List α) (start stop step : Int) :
+    ∀ (fuel : Nat) (i : Int), GenSlice.sliceLoop2 xs start stop step fuel i = Slice.loopDown xs stop step fuel i := by
+  first
+  | (intro fuel i; rfl)       -- the hand-written loops (the translator did not recognise the source's)
+  | (intro fuel
+     induction fuel with
+     | zero => intro i; simp [GenSlice.sliceLoop2, Slice.loopDown]
+     | succ n ih =>
+       intro i
+       simp only [GenSlice.sliceLoop2, Slice.loopDown, ih, decide_eq_true_eq]
+       first
+         | rfl
+         | (repeat' split) <;> simp_all <;> omega)
+
+/-- With the translated arithmetic AND the translated loops, `slice` is Python's slice (fuel `len + 1`
+    is enough: the loop never runs out of it). -/
 theorem gen_slice_eq_pySlice {α} (xs : List α) (a b c : Option Int) (hlen : InRange xs.length)
     (ha : ∀ x, a = some x → InRange x) (hb : ∀ x, b = some x → InRange x) (hc : ∀ x, c = some x → InRange x)
     (h0 : c ≠ some 0) :
-    GenSlice.slice xs a b c = .ok ((Spec.pySlice xs.length a b (c.getD 1)).filterMap (getIdx xs)) := by
+    GenSlice.slice (xs.length + 1) xs [GenSlice.param a, GenSlice.param b, GenSlice.param c]
+      = .ok ((Spec.pySlice xs.length a b (c.getD 1)).filterMap (getIdx xs)) := by
   have hd : GenSlice.Dom xs.length a b c := by
     unfold InRange at hlen ha hb hc
     exact ⟨by omega, hlen.2, ha, hb, hc⟩
@@ -89,39 +109,36 @@ theorem gen_slice_eq_pySlice {α} (xs : List α) (a b c : Option Int) (hlen : In
   have hg := gen_computeSliceParams_eq xs.length a b c hd
   unfold GenSlice.expected at hg
   unfold Slice.slice at hm
+  have hguard : ¬ ((xs.length : Int) > 9223372036854775807) := by unfold InRange at hlen; omega
+  simp only [hguard, if_false] at hm
   unfold GenSlice.slice
-  split
-  · rename_i h; simp only [h, if_true] at hm; exact absurd hm (by simp)
-  · rename_i h
-    simp only [h, if_false] at hm
-    cases hp : Slice.computeSliceParams (xs.length : Int) a b c with
-    | none => rw [hp] at hm; exact absurd hm (by simp)
-    | some t =>
-      obtain ⟨start, stop, step⟩ := t
-      rw [hp] at hm hg
-      cases hq : GenSlice.computeSliceParams (xs.length : Int) [GenSlice.param a, GenSlice.param b, GenSlice.param c] with
-      | error m => rw [hq] at hg; exact absurd hg (by simp [Except.toOption])
-      | ok l =>
-        rw [hq] at hg
-        simp only [Except.toOption, Option.some.injEq] at hg
-        subst hg
-        exact hm
+  cases hp : Slice.computeSliceParams (xs.length : Int) a b c with
+  | none => rw [hp] at hm; exact absurd hm (by simp)
+  | some t =>
+    obtain ⟨start, stop, step⟩ := t
+    rw [hp] at hm hg
+    cases hq : GenSlice.computeSliceParams (xs.length : Int) [GenSlice.param a, GenSlice.param b, GenSlice.param c] with
+    | error m => rw [hq] at hg; exact absurd hg (by simp [Except.toOption])
+    | ok l =>
+      rw [hq] at hg
+      simp only [Except.toOption, Option.some.injEq] at hg
+      subst hg
+      simp only [List.getElem?_cons_zero, List.getElem?_cons_succ, gen_loop1_eq, gen_loop2_eq, decide_eq_true_eq]
+      simpa using hm
 
-/-- A zero step is an error with the translated arithmetic as well. -/
+/-- A zero step is an error with the translated code as well. -/
 theorem gen_slice_step_zero {α} (xs : List α) (a b : Option Int) (hlen : InRange xs.length)
-    (ha : ∀ x, a = some x → InRange x) (hb : ∀ x, b = some x → InRange x) :
-    ∃ e, GenSlice.slice xs a b (some 0) = .err e := by
+    (ha : ∀ x, a = some x → InRange x) (hb : ∀ x, b = some x → InRange x) (fuel : Nat) :
+    ∃ e, GenSlice.slice fuel xs [GenSlice.param a, GenSlice.param b, GenSlice.param (some 0)] = .err e := by
   have hd : GenSlice.Dom xs.length a b (some 0) := by
     unfold InRange at hlen ha hb
     exact ⟨by omega, hlen.2, ha, hb, by intro x hx; cases hx; omega⟩
   have hg := gen_computeSliceParams_eq xs.length a b (some 0) hd
   unfold GenSlice.slice
-  split
-  · exact ⟨_, rfl⟩
-  · cases hq : GenSlice.computeSliceParams (xs.length : Int) [GenSlice.param a, GenSlice.param b, GenSlice.param (some 0)] with
-    | error m => exact ⟨_, rfl⟩
-    | ok l =>
-      rw [hq] at hg
-      simp [GenSlice.expected, Slice.computeSliceParams, Slice.stepOf, Except.toOption] at hg
+  cases hq : GenSlice.computeSliceParams (xs.length : Int) [GenSlice.param a, GenSlice.param b, GenSlice.param (some 0)] with
+  | error m => exact ⟨_, rfl⟩
+  | ok l =>
+    rw [hq] at hg
+    simp [GenSlice.expected, Slice.computeSliceParams, Slice.stepOf, Except.toOption] at hg
 
 end Jmes
